@@ -61,6 +61,11 @@ func TestVerifBodyWriter(t *testing.T) {
 	seed, _ := strconv.ParseUint(os.Getenv("VERIF_SEED"), 10, 64)
 	r := rand.New(rand.NewPCG(seed, 0xc11))
 	n := 0
+	// ONE client for the whole sequence, as the tool has in looping mode: the same log comes round again, often with an
+	// unchanged checkpoint and another proof - what is written must be what this call was given, not what an earlier one was
+	rt := &captureRT{}
+	bc := &bastionClient{httpClient: &http.Client{Transport: rt}, url: "http://bastion.example/add-checkpoint", originByLogID: map[string]string{}}
+	var prevCP []byte
 	for i := 0; i < 3000; i++ {
 		var proof [][]byte
 		for k := r.IntN(5) * r.IntN(17); k > 0; k-- {
@@ -86,9 +91,12 @@ func TestVerifBodyWriter(t *testing.T) {
 				cp[j] = byte(r.Uint32())
 			}
 		}
-		rt := &captureRT{}
-		bc := &bastionClient{httpClient: &http.Client{Transport: rt}, url: "http://bastion.example/add-checkpoint", originByLogID: map[string]string{}}
-		if _, err := bc.Update(context.Background(), "someid", 0, cp, proof); err != nil {
+		if i > 0 && r.IntN(3) == 0 {
+			cp = prevCP // the same checkpoint again (with this round's proof)
+		}
+		prevCP = cp
+		rt.body = nil
+		if _, err := bc.Update(context.Background(), []string{"someid", "otherid"}[r.IntN(2)], 0, cp, proof); err != nil {
 			t.Fatalf("VERIFWRITER MISMATCH case %d: Update: %v", i, err)
 		}
 		old, gotProof, gotCP, err := refRead(rt.body)
